@@ -1291,6 +1291,10 @@ func (d *Driver) RefString(ref M) string {
 		return "unknown-rt-" + S(ref, "id")
 	case "id":
 		return d.HintString(M{"kind": S(ref, "form"), "id": S(ref, "id")})
+	case "extSubject":
+		return modelstore.ExtSubjectPrefix + S(ref, "id") // a third-party token the storage accepts as subject token only
+	case "extActor":
+		return modelstore.ExtActorPrefix + S(ref, "id") // ... as actor token only
 	}
 	return "garbage"
 }
